@@ -1304,6 +1304,17 @@ pub fn run_fmt<T: Case + std::fmt::Debug, W: Write>(
             write!(s, "{:#?}", x).map(|_| s)
         }));
         let pcalls = calls_json();
+        // width / precision / fill flags belong to the fields (the probes ignore them): names, keys and punctuation are
+        // written as they are, so the flagged renderings equal the plain one
+        let flagged: Vec<String> = [
+            catch_unwind(AssertUnwindSafe(|| format!("{:7?}", x))),
+            catch_unwind(AssertUnwindSafe(|| format!("{:.1?}", x))),
+            catch_unwind(AssertUnwindSafe(|| format!("{:*<9?}", x))),
+        ]
+        .into_iter()
+        .map(|r| jstr(&r.unwrap_or_else(|_| "<panic>".to_string()).replace('\n', "|")))
+        .collect();
+        log_take();
         let (dout, dpretty) = match twin {
             Some(f) => f(a.v, &a.f),
             None => (String::new(), String::new()),
@@ -1312,9 +1323,9 @@ pub fn run_fmt<T: Case + std::fmt::Debug, W: Write>(
         let fnames: Vec<String> = fields[a.v - 1].iter().map(|s| jstr(s)).collect();
         match (r1, r2) {
             (Ok(Ok(o)), Ok(Ok(p))) => out.rec(&format!(
-                "\"ev\":\"op\",\"t\":{},\"op\":\"fmt\",\"a\":{},\"nm\":{{\"type\":{},\"fields\":[{}]}},\"out\":{},\"pretty\":{},\"calls\":{},\"pcalls\":{},\"dout\":{},\"dpretty\":{}",
+                "\"ev\":\"op\",\"t\":{},\"op\":\"fmt\",\"a\":{},\"nm\":{{\"type\":{},\"fields\":[{}]}},\"out\":{},\"pretty\":{},\"calls\":{},\"pcalls\":{},\"dout\":{},\"dpretty\":{},\"flagged\":[{}]",
                 T::ID, a.json(), jstr(type_name), fnames.join(","), jstr(&o.replace('\n', "|")), jstr(&p.replace('\n', "|")),
-                calls, pcalls, jstr(&dout), jstr(&dpretty)
+                calls, pcalls, jstr(&dout), jstr(&dpretty), flagged.join(",")
             )),
             _ => out.rec(&format!("\"ev\":\"op\",\"t\":{},\"op\":\"panic\",\"in\":\"fmt\",\"a\":{}", T::ID, a.json())),
         }
